@@ -379,7 +379,10 @@ OpFlush(S, e, dirs, mode) ==
   THEN LET R1 == IF "R" \in dirs THEN FiltProcessIn(S, mode) ELSE [s |-> S, p |-> FALSE]
            R2 == IF "W" \in dirs THEN FiltProcessOut(R1.s, mode) ELSE [s |-> R1.s, p |-> FALSE]
            R3 == PairFlush(R2.s, 1, dirs, mode)
-       IN [s |-> [R3.s EXCEPT !.b[3].fin = @ \/ (mode = 2 /\ "W" \in dirs)], r |-> IF R1.p \/ R2.p THEN 1 ELSE 0]
+           \* a finishing flush of a filter whose writing is disabled calls the output filter once and passes the
+           \* shutdown on even if output is left: EOF before the data, trigger "filt_eof_before_data"
+           S4 == IF mode = 2 /\ "W" \in dirs /\ R3.s.b[3].out > 0 THEN Dv(R3.s, "filt_eof_before_data") ELSE R3.s
+       IN [s |-> [S4 EXCEPT !.b[3].fin = @ \/ (mode = 2 /\ "W" \in dirs)], r |-> IF R1.p \/ R2.p THEN 1 ELSE 0]
   ELSE PairFlush(S, e, dirs, mode)
 
 (* the last reference is gone: unlink + finalize (no callback of e can run any more) *)
